@@ -76,27 +76,32 @@ theorem loadAsgs_inv (T : Tbl) : ∀ (asg : List PAsg) (l : List Asg), loadAsgs 
           · cases h
 
 mutual
-  theorem loadSig_inv (T : Tbl) : (p : PSig) → (s : Sig) → loadSig T p = .ok s →
+  theorem loadSig_inv (T : Tbl) (o : Owner) : (p : PSig) → (sn sn' : Seen) → (s : Sig) →
+      loadSig T o sn p = .ok (s, sn') →
       (∀ r ∈ psigRefs p, T.has r) ∧ psigMuxAll MuxOK p
-    | .mk e asg kind body, s, h => by
+    | .mk e asg kind body, sn, sn', s, h => by
       simp only [loadSig] at h
       split at h
       · cases h
-      · rename_i b hb
+      · rename_i sn1 _
         split at h
         · cases h
-        · rename_i a ha
-          obtain ⟨h1, h2⟩ := loadBody_inv T (sigKindOf kind) body b hb
-          refine ⟨?_, by simpa [psigMuxAll] using h2⟩
-          intro r hr
-          simp only [psigRefs, List.mem_append] at hr
-          rcases hr with hr | hr
-          · exact loadAsgs_inv T asg a ha r hr
-          · exact h1 r hr
-  theorem loadBody_inv (T : Tbl) (kind : Nat) : (p : PBody) → (b : Body) → loadBody T kind p = .ok b →
+        · rename_i b sn2 hb
+          split at h
+          · cases h
+          · rename_i a ha
+            obtain ⟨h1, h2⟩ := loadBody_inv T (sigKindOf kind) e.id body sn1 sn2 b hb
+            refine ⟨?_, by simpa [psigMuxAll] using h2⟩
+            intro r hr
+            simp only [psigRefs, List.mem_append] at hr
+            rcases hr with hr | hr
+            · exact loadAsgs_inv T asg a ha r hr
+            · exact h1 r hr
+  theorem loadBody_inv (T : Tbl) (kind : Nat) (self : Id) : (p : PBody) → (sn sn' : Seen) → (b : Body) →
+      loadBody T kind self sn p = .ok (b, sn') →
       (∀ r ∈ pbodyRefs p, T.has r) ∧ pbodyMuxAll MuxOK p
-    | .none, b, h => by simp [loadBody] at h
-    | .std ty un, b, h => by
+    | .none, sn, sn', b, h => by simp [loadBody] at h
+    | .std ty un, sn, sn', b, h => by
       simp only [loadBody] at h
       split at h
       · cases h
@@ -119,7 +124,7 @@ mutual
                 simp only [Bool.and_eq_true, bne_iff_ne, ne_eq, not_and, Bool.not_eq_true,
                   Option.isNone_eq_false_iff] at hu
                 simpa [Tbl.has] using hu hun
-    | .enm en, b, h => by
+    | .enm en, sn, sn', b, h => by
       simp only [loadBody] at h
       split at h
       · cases h
@@ -132,23 +137,24 @@ mutual
           subst hr
           show (findEnt T.enums en).isSome = true
           cases hx : findEnt T.enums en <;> simp_all
-    | .mux gc sigs fixed groups, b, h => by
-      obtain ⟨_, hok, ks, hks⟩ := loadBody_mux_inv T kind gc sigs fixed groups b h
-      obtain ⟨h1, h2⟩ := loadSigs_inv T sigs ks hks
+    | .mux gc sigs fixed groups, sn, sn', b, h => by
+      obtain ⟨_, hok, ks, hks⟩ := loadBody_mux_inv T kind gc self sn sn' sigs fixed groups b h
+      obtain ⟨h1, h2⟩ := loadSigs_inv T (.sig self) sigs sn sn' ks hks
       exact ⟨by simpa [pbodyRefs] using h1, by simpa [pbodyMuxAll] using ⟨hok, h2⟩⟩
-  theorem loadSigs_inv (T : Tbl) : (l : List PSig) → (ks : List Sig) → loadSigs T l = .ok ks →
+  theorem loadSigs_inv (T : Tbl) (o : Owner) : (l : List PSig) → (sn sn' : Seen) → (ks : List Sig) →
+      loadSigs T o sn l = .ok (ks, sn') →
       (∀ r ∈ psigsRefs l, T.has r) ∧ psigsMuxAll MuxOK l
-    | [], _, _ => by simp [psigsRefs, psigsMuxAll]
-    | p :: rest, ks, h => by
+    | [], _, _, _, _ => by simp [psigsRefs, psigsMuxAll]
+    | p :: rest, sn, sn', ks, h => by
       simp only [loadSigs] at h
       split at h
       · cases h
-      · rename_i s hs
+      · rename_i s sn1 hs
         split at h
         · cases h
-        · rename_i ss hss
-          obtain ⟨a1, a2⟩ := loadSig_inv T p s hs
-          obtain ⟨b1, b2⟩ := loadSigs_inv T rest ss hss
+        · rename_i ss sn2 hss
+          obtain ⟨a1, a2⟩ := loadSig_inv T o p sn sn1 s hs
+          obtain ⟨b1, b2⟩ := loadSigs_inv T o rest sn1 sn2 ss hss
           refine ⟨?_, by simpa [psigsMuxAll] using ⟨a2, b2⟩⟩
           intro r hr
           simp only [psigsRefs, List.mem_append] at hr
@@ -157,21 +163,22 @@ mutual
           · exact b1 r hr
 end
 
-theorem loadTop_inv (T : Tbl) (refs : List (Id × Nat)) : ∀ (l : List PSig) (ss : List (Sig × Nat)),
-    loadTop T refs l = .ok ss → (∀ r ∈ psigsRefs l, T.has r) ∧ psigsMuxAll MuxOK l
-  | [], _, _ => by simp [psigsRefs, psigsMuxAll]
-  | p :: rest, ss, h => by
+theorem loadTop_inv (T : Tbl) (refs : List (Id × Nat)) (o : Owner) : ∀ (l : List PSig) (sn sn' : Seen)
+    (ss : List (Sig × Nat)),
+    loadTop T refs o sn l = .ok (ss, sn') → (∀ r ∈ psigsRefs l, T.has r) ∧ psigsMuxAll MuxOK l
+  | [], _, _, _, _ => by simp [psigsRefs, psigsMuxAll]
+  | p :: rest, sn, sn', ss, h => by
     simp only [loadTop] at h
     split at h
     · cases h
-    · rename_i s hs
+    · rename_i s sn1 hs
       split at h
       · cases h
       · split at h
         · cases h
-        · rename_i ss' hss
-          obtain ⟨a1, a2⟩ := loadSig_inv T p s hs
-          obtain ⟨b1, b2⟩ := loadTop_inv T refs rest ss' hss
+        · rename_i ss' sn2 hss
+          obtain ⟨a1, a2⟩ := loadSig_inv T o p sn sn1 s hs
+          obtain ⟨b1, b2⟩ := loadTop_inv T refs o rest sn1 sn2 ss' hss
           refine ⟨?_, by simpa [psigsMuxAll] using ⟨a2, b2⟩⟩
           intro r hr
           simp only [psigsRefs, List.mem_append] at hr
@@ -202,21 +209,23 @@ theorem loadMsg_inv (T : Tbl) (st : St) (p : PMsg) (res : Msg × St) (h : loadMs
   simp only [loadMsg] at h
   split at h
   · cases h
-  · rename_i sigs hs
-    split at h
+  · split at h
     · cases h
-    · rename_i recvs st' hr
+    · rename_i sigs sn hs
       split at h
       · cases h
-      · rename_i asg ha
-        obtain ⟨a1, a2⟩ := loadTop_inv T p.refs p.sigs sigs hs
-        refine ⟨?_, a2⟩
-        intro r hr'
-        simp only [pmsgRefs, List.mem_append, List.mem_map] at hr'
-        rcases hr' with (hr' | hr') | ⟨x, hx, rfl⟩
-        · exact loadAsgs_inv T p.asg asg ha r hr'
-        · exact a1 r hr'
-        · exact loadRecvs_inv T p.e.id p.recvs st [] _ hr x hx
+      · rename_i recvs st' hr
+        split at h
+        · cases h
+        · rename_i asg ha
+          obtain ⟨a1, a2⟩ := loadTop_inv T p.refs _ p.sigs _ _ sigs hs
+          refine ⟨?_, a2⟩
+          intro r hr'
+          simp only [pmsgRefs, List.mem_append, List.mem_map] at hr'
+          rcases hr' with (hr' | hr') | ⟨x, hx, rfl⟩
+          · exact loadAsgs_inv T p.asg asg ha r hr'
+          · exact a1 r hr'
+          · exact loadRecvs_inv T p.e.id p.recvs _ [] _ hr x hx
 
 theorem loadMsgs_inv (T : Tbl) (key : Id × Nat) : ∀ (l : List PMsg) (st : St) (res : List Msg × St),
     loadMsgs T key st l = .ok res →
